@@ -25,7 +25,7 @@ TIMEOUT = {"quick": 1500, "thorough": 7200}
 RULE = (
     "call-shape matrix: sources {in-memory, computed (elementwise/reduction), rechunked, fused chain} x targets {new path, "
     "path+group (to_zarr), existing Zarr array with equal / coarser / finer / unrelated chunking, sharded array} x regions "
-    "{none, full, chunk-aligned offset, misaligned, wrong shape} x {store, to_zarr} x {eager, compute=False} x pair lists with "
+    "{none, full, chunk-aligned offset (spelled plainly, with open ends, with negative bounds, with an explicit step of 1, or - to be refused - with a step of 2), misaligned, wrong shape, overhang} x {store, to_zarr} x {eager, compute=False} x pair lists with "
     "a repeated source or several sources x {source never computed, source computed before the store call (30%)} x executors {single-threaded, threads, harness-sequential}; geometry randomised "
     "inside each cell. An evaluation = one call; non-trivial = the call was accepted and its target(s) read back and compared "
     "(or it was rejected and the trace inspected); distinct by hash of the call description"
@@ -111,8 +111,10 @@ def complete_target_geometry(c, rng):
                 ext[j] = max(1, ext[j] + rng.choice([-1, 1]))
             c["region_slices"] = [[s, min(t, s + e)] for s, e, t in zip(starts, ext, tshape)]
             if rk == "aligned":
-                # python-style open ends now and then
+                # other spellings of the same region: python-style open ends, negative bounds, an explicit step of 1;
+                # and a region with a step of 2 (not a contiguous region: has to be refused before anything runs)
                 c["open_ends"] = rng.random() < 0.3
+                c["spelling"] = rng.choice(["plain", "plain", "negative", "negative", "step1", "stepped"])
         elif rk == "overhang":
             # chunk-aligned start, stop beyond the end of the target on one axis; source has the unclipped extent
             unit = c.get("tshards", c["tchunks"])
@@ -187,13 +189,38 @@ def region_of(c):
     if c["region"] in ("none",):
         return None
     sl = []
-    for (a, b), t in zip(c["region_slices"], c.get("tshape", c["shape"])):
+    sp = c.get("spelling", "plain")
+    for k, ((a, b), t) in enumerate(zip(c["region_slices"], c.get("tshape", c["shape"]))):
         if c.get("open_ends") and a == 0:
             a = None
         if c.get("open_ends") and b == t:
             b = None
-        sl.append(slice(a, b))
+        if sp == "negative":
+            # the same elements, counted from the end
+            if a is not None and a > 0:
+                a = a - t
+            if b is not None and b < t:
+                b = b - t
+            elif b is not None and b == t:
+                b = None
+            sl.append(slice(a, b))
+        elif sp == "step1":
+            sl.append(slice(a, b, 1))
+        elif sp == "stepped" and k == 0:
+            # every second element: with the source's extent where that fits into the target, else over [a, b)
+            a0 = a or 0
+            d = c["shape"][0]
+            if a0 + 2 * d - 1 <= t:
+                sl.append(slice(a, a0 + 2 * d - 1, 2))
+            else:
+                sl.append(slice(a, b, 2))
+        else:
+            sl.append(slice(a, b))
     return tuple(sl)
+
+
+def region_is_stepped(c):
+    return c.get("spelling") == "stepped" and c["region"] == "aligned"
 
 
 def run_call(c, workdir, res, monitors_c05=False, callbacks=None):
@@ -266,9 +293,19 @@ def run_call(c, workdir, res, monitors_c05=False, callbacks=None):
         (a is not None and a % u != 0) or (b is not None and b % u != 0 and b != t)
         for (a, b), u, t in zip(c.get("region_slices", []), c.get("tshards", c.get("tchunks", [])), c.get("tshape", []))
     )
+    entered = getattr(ex, "entries", 0)
+    if region_is_stepped(c):
+        res["counters"]["stepped_regions"] += 1
+    elif c.get("spelling") == "negative":
+        res["counters"]["negative_bound_regions"] += 1
     if err is not None:
         res["counters"]["rejected"] += 1
         _rc.bump(res["hist"]["exceptions"], f"{c['target']}/{c['region']}:{err['type']}")
+        if (must_reject or region_is_stepped(c)) and entered and not tgt_muts:
+            V("unsafe-region-rejected-after-execution-started", f"a region that cannot be written safely ({region}) was only refused ({err['type']}: {err['msg'][:80]}) after the executor had been entered", exc=err)
+        elif entered and not tgt_muts:
+            # neither filled nor refused up front: the call failed while running (fault-free run)
+            V("call-failed-after-execution-started", f"store call with region {region} raised {err['type']} ({err['msg'][:80]}) after the executor had been entered", exc=err)
         if tgt_muts:
             V("written-before-rejection", f"call raised {err['type']} ({err['msg'][:100]}) after {len(tgt_muts)} chunk writes to the target", exc=err)
         elif c["region"] in ("none", "full", "aligned") and not (c["target"] in ("existing_unrelated", "existing_coarser", "existing_finer", "sharded")):
@@ -277,6 +314,9 @@ def run_call(c, workdir, res, monitors_c05=False, callbacks=None):
         res["nontrivial"].append(gen.rhash(c))
         return viols, None
     res["counters"]["accepted"] += 1
+    if region_is_stepped(c):
+        V("stepped-region-accepted", f"a region with a step ({region}) was accepted; {len(tgt_muts)} chunk writes to the target")
+        return viols, None
     if region is not None and c.get("tshape"):
         rshape = tuple(len(range(*sl.indices(t))) for sl, t in zip(region, c["tshape"]))
         if rshape != tuple(c["shape"]):
@@ -316,7 +356,7 @@ def run_call(c, workdir, res, monitors_c05=False, callbacks=None):
     return viols, {"events": events, "writes": writes, "target_roots": target_roots}
 
 
-EXTRA = ("sources_computed_before_the_store", "accepted", "rejected", "targets_read_back", "plain_calls_rejected")
+EXTRA = ("stepped_regions", "negative_bound_regions", "sources_computed_before_the_store", "accepted", "rejected", "targets_read_back", "plain_calls_rejected")
 
 
 def run_shard(spec, workdir):
@@ -356,6 +396,8 @@ def finalize(tier, merged):
             ("distinct call-shape cells exercised", len(merged["hist"].get("config", {})), 40),
             ("calls whose source had been computed before it was stored", c.get("sources_computed_before_the_store", 0), 150 if tier == "quick" else 1250),
             ("rejected calls whose trace was inspected", c.get("rejected", 0), 100 if tier == "quick" else 1000),
+            ("regions spelled with negative bounds", c.get("negative_bound_regions", 0), 25 if tier == "quick" else 200),
+            ("regions with a step (must be refused up front)", c.get("stepped_regions", 0), 10 if tier == "quick" else 80),
         ],
         "assumptions": ASSUMPTIONS,
     }
